@@ -444,6 +444,17 @@ def monster_cases(surface):
                     continue
                 for a in ("M", "M, M", "0, M"):
                     cases.append({"id": h(["monster-arg", name, kind, mname, a]), "fam": "api", "ident": ["monster-arg:" + name, kind + "." + mname, 2], "src": build + "\nvar r = %s; r[%s](%s)" % (expr, json.dumps(mname), a)})
+    # typed-array views over a buffer: every (buffer size, byte offset, element count) combination around the buffer's end, then reads,
+    # writes and bulk operations at the view's first, last and one-past-last element (a view that reaches past its buffer is where host
+    # struct/bytearray errors would come from)
+    for tk in ("Int8Array", "Uint8Array", "Uint8ClampedArray", "Int16Array", "Uint16Array", "Int32Array", "Uint32Array", "Float32Array", "Float64Array"):
+        for nbytes in (0, 8, 16, 17):
+            for off in ("0", "1", "2", "4", "8", "16", "-1", "1.5", "undefined"):
+                for ln in ("", "0", "1", "2", "3", "4", "5", "8", "9", "16", "17", "-1", "1.5", "undefined"):
+                    args = "new ArrayBuffer(%d), %s%s" % (nbytes, off, ", " + ln if ln else "")
+                    src = ("var v = new %s(%s); var n = v.length; var out = [n, v[0], v[n - 1], v[n]]; if (n > 0) { v[n - 1] = 7; v[0] = 3; } v[n] = 1; "
+                           "v.set([1]); if (n > 1) { v.set([2, 3], n - 2); } out.push(v.join(), v.subarray(0, n).length, '' + v); out") % (tk, args)
+                    cases.append({"id": h(["typed-view", tk, nbytes, off, ln]), "fam": "api", "ident": ["typed-view:" + tk, "ctor(%d,%s,%s)" % (nbytes, off, ln), 3], "src": src})
     for g, ty in surface["globals"]:
         for bi, (base, name, build) in enumerate(MONSTERS):
             if ty == "function":
